@@ -249,7 +249,7 @@ class Dataset(AbstractDataset, dict, OpMixin, GetSetDelAttrMixin):
     #
     # Backends
     #
-    def write_nc(self, f, mode='w', clobber=True, format=None, **kwargs):
+    def write_nc(self, f, mode='w', clobber=None, format=None, **kwargs):
         """ Write Dataset to netCDF file.
 
         Wrapper around DatasetOnDisk
